@@ -19,13 +19,13 @@ ID = "C15"
 RULE = ("motifs: every connected atlas graph with <= 5 vertices plus every connected 6-vertex graph with <= 7 edges (quick) / every connected graph with <= 6 vertices (thorough), each with every focal vertex, random connected "
         "7-vertex graphs with <= 11 edges (thorough), cliques <= K6, cycles <= C12, stars, paths, and relabelled copies with non-contiguous "
         "vertex ids; histories: one evaluator, a shuffled stream of (motif, root, phi, u) queries mixing exact-polynomial and float arguments "
-        "with re-queries of the same motif under other roots / phi / u, every answer compared with the brute-force oracle; non-trivial = "
+        "with re-queries of the same motif under other roots / phi / u, every answer compared with the brute-force oracle; 60% of the history queries hand over a motif graph OBJECT kept from earlier queries with its u attributes overwritten in place, and re-query it at the same phi and focal vertex after such an update; non-trivial = "
         ">= 3 vertices and (a cycle or >= 2 distinct u in the answer); distinct = SHA-1 of (edge set, roots, history)")
 ASSUMPTIONS = ["all motifs on one evaluator are distinctly named (as the property stipulates)", "polynomial identity after full expansion; float spot checks at 1e-12",
                "oracle: enumeration of all 2^|E| occupation states with a bitmask component search"]
-HEADLINE = ["queries", "poly_identities", "float_checks", "motifs", "roots", "history_cases", "cross_evaluator_name_reuse", "cache_hits", "cache_misses", "shadow_unsupported", "nonintegral_float_coercions"]
-REQUIRED = {"quick": {"poly_identities_or_numeric": 150, "float_checks": 100, "history_cases": 5, "cache_hits": 20},
-            "thorough": {"poly_identities_or_numeric": 800, "float_checks": 500, "history_cases": 50, "cache_hits": 200}}
+HEADLINE = ["queries", "poly_identities", "float_checks", "motifs", "roots", "history_cases", "cross_evaluator_name_reuse", "queries_on_a_kept_motif_object", "requeries_after_in_place_u_update", "cache_hits", "cache_misses", "shadow_unsupported", "nonintegral_float_coercions"]
+REQUIRED = {"quick": {"poly_identities_or_numeric": 150, "float_checks": 100, "history_cases": 5, "cache_hits": 20, "requeries_after_in_place_u_update": 10},
+            "thorough": {"poly_identities_or_numeric": 800, "float_checks": 500, "history_cases": 50, "cache_hits": 200, "requeries_after_in_place_u_update": 100}}
 SHARD_TIMEOUT = {"quick": 900, "thorough": 10800}
 
 
@@ -107,11 +107,18 @@ class CacheWatch:
         return r
 
 
-def query(res, ae, watch, g, name, root, mode, rng, oracle_cache, ctx):
-    """one call of the real method + comparison with the oracle; returns False on violation"""
+def motif_object(g, name):
     H = nx.Graph(name=name)
     H.add_nodes_from(g.nodes())
     H.add_edges_from(g.edges())
+    return H
+
+
+def query(res, ae, watch, g, name, root, mode, rng, oracle_cache, ctx, H=None, phi=None, out=None):
+    """one call of the real method + comparison with the oracle; returns False on violation.  H: a motif graph OBJECT kept by the
+    caller between calls (its 'u' attributes are overwritten in place, as a message-passing sweep does); phi: reuse this value"""
+    if H is None:
+        H = motif_object(g, name)
     nodes = list(g.nodes())
     res.count("queries")
     if mode == "poly":
@@ -141,7 +148,10 @@ def query(res, ae, watch, g, name, root, mode, rng, oracle_cache, ctx):
                         terms_want=want.nterms(), ctx=ctx)
             return False
     else:
-        phi = rng.choice([0.0, 1.0, 0.5, rng.random(), rng.random(), 2.0, -0.5, 0.25])
+        if phi is None:
+            phi = rng.choice([0.0, 1.0, 0.5, rng.random(), rng.random(), 2.0, -0.5, 0.25])
+        if out is not None:
+            out["phi"] = phi
         # "all real phi and u": include values where a shortcut could branch (0, 1, 2, -1, and phi*u == 1 exactly)
         us = {v: rng.choice([0.0, 1.0, rng.random(), rng.random(), 2.0, -1.0, (1.0 / phi if phi else 1.0)]) for v in nodes}
         for v in nodes:
@@ -205,14 +215,26 @@ def run_case(case):
         ae = sut("AutomatedEquation()", AutomatedEquation)
         watch = CacheWatch(ae, res)
         hist = []
+        kept = {}       # motif name -> the graph OBJECT handed over again and again, its u attributes refreshed in place
         for q in range(case["queries"]):
             name, g, oc = rng.choice(motifs)
             root = rng.choice(list(g.nodes()))
             mode = rng.choice(["poly", "float", "float"])
             hist.append((name, root, mode))
-            if not query(res, ae, watch, g, name, root, mode, rng, oc,
-                         {"history_so_far": hist[-8:], "motif": name, "edges": sorted(map(tuple, map(sorted, g.edges())))}):
+            H = None
+            if rng.random() < 0.6:
+                H = kept.setdefault(name, motif_object(g, name))
+                res.count("queries_on_a_kept_motif_object")
+            ctxq = {"history_so_far": hist[-8:], "motif": name, "edges": sorted(map(tuple, map(sorted, g.edges()))), "same_graph_object_as_before": H is not None}
+            out = {}
+            if not query(res, ae, watch, g, name, root, mode, rng, oc, ctxq, H=H, out=out):
                 break
+            if H is not None and mode == "float" and rng.random() < 0.6:
+                # the next sweep: same object, same focal vertex, same phi - only the u values on the vertices have changed
+                res.count("requeries_after_in_place_u_update")
+                hist.append((name, root, "float-again"))
+                if not query(res, ae, watch, g, name, root, "float", rng, oc, dict(ctxq, requery_same_object_phi_root_after_u_update=True), H=H, phi=out.get("phi")):
+                    break
         # a second evaluator object in the same process that reuses the first one's motif NAMES for other graphs
         # (names only have to be distinct per evaluator: MessagePassing names its motifs "<focal>-<id>" on every network)
         if res.verdict == "held":
